@@ -790,13 +790,15 @@ theorem verify_one_sig_ok_iff (cv : VKey → VSig → List VRec → Verdict) (in
   verifyOneSig_iff cv inPeriod supAlg tagOf keys set sig
 
 /-- **`VerifyRRSIG` succeeds exactly** when keys were offered, no answer
-record lies outside the signer zone, and every RRset that has to be signed
-(answer records; authority records other than NS inside the zone) is a proper
+record that is not a synthesised CNAME lies outside the signer zone, and every
+RRset that has to be signed (answer records; authority records other than NS
+inside the zone; synthesised CNAMEs of an in-zone DNAME excepted) is a proper
 RRset covered by a signature filed under its owner, type and class, inside the
 zone, for which `verifyOneSig` succeeds — or there is nothing to sign. -/
 theorem verify_rrsig_ok_iff (oneSig : List VRec → VSig → Bool) (nKeys : Nat) (zone : Bytes) (m : VMsg) :
     verifyRRSIG oneSig nKeys zone m = true ↔
-      nKeys ≠ 0 ∧ (∀ r ∈ m.answer, nameInZone (lower r.name) (lower (fqdn zone)) = true) ∧
+      nKeys ≠ 0 ∧
+      (∀ r ∈ m.answer, exempt (lower (fqdn zone)) m r = false → nameInZone (lower r.name) (lower (fqdn zone)) = true) ∧
       (collected (lower (fqdn zone)) m = [] ∨
         (m.sigs ≠ [] ∧ ∀ r ∈ collected (lower (fqdn zone)) m,
           isRRset (hdrsOf (groupOf (lower (fqdn zone)) m r)) = true ∧
@@ -805,25 +807,59 @@ theorem verify_rrsig_ok_iff (oneSig : List VRec → VSig → Bool) (nKeys : Nat)
   verifyRRSIG_iff oneSig nKeys zone m
 
 /-- **Only authenticated data.** If `VerifyRRSIG` says yes then every answer
-record lies in the signer zone and its RRset carries a signature that is in
-its validity period, of a supported algorithm, and passes the cryptographic
-check under an offered zone key (protocol 3, zone flag) named by the
-signature's tag, algorithm, class and signer. -/
+record that is not a synthesised CNAME lies in the signer zone and its RRset
+carries a signature that is in its validity period, of a supported algorithm,
+and passes the cryptographic check under an offered zone key (protocol 3,
+zone flag) named by the signature's tag, algorithm, class and signer. -/
 theorem verify_rrsig_every_answer_authenticated (cv : VKey → VSig → List VRec → Verdict) (inPeriod : VSig → Bool)
     (supAlg : Nat → Bool) (tagOf : VKey → Nat) (keys : List VKey) (zone : Bytes) (m : VMsg)
     (h : verifyRRSIG (verifyOneSig cv inPeriod supAlg tagOf keys) keys.length zone m = true) :
-    ∀ r ∈ m.answer, nameInZone (lower r.name) (lower (fqdn zone)) = true ∧
+    ∀ r ∈ m.answer, exempt (lower (fqdn zone)) m r = false →
+      nameInZone (lower r.name) (lower (fqdn zone)) = true ∧
       ∃ s ∈ m.sigs, ∃ k ∈ keys, sigKey s = rrKey r ∧ inPeriod s = true ∧ supAlg s.alg = true ∧
         usableSignatureCandidate tagOf s k = true ∧ cv k s (groupOf (lower (fqdn zone)) m r) = Verdict.ok := by
-  intro r hr
+  intro r hr hex
   obtain ⟨_, hzone, hrest⟩ := (verifyRRSIG_iff _ _ _ _).mp h
-  refine ⟨hzone r hr, ?_⟩
-  have hmem : r ∈ collected (lower (fqdn zone)) m := by unfold collected; exact List.mem_append_left _ hr
+  refine ⟨hzone r hr hex, ?_⟩
+  have hmem : r ∈ collected (lower (fqdn zone)) m := by
+    unfold collected
+    exact List.mem_append_left _ (List.mem_filter.mpr ⟨hr, by simp [hex]⟩)
   rcases hrest with hnil | ⟨_, hall⟩
   · rw [hnil] at hmem; cases hmem
   · obtain ⟨_, s, hs, _, hkey, hone⟩ := hall r hmem
     obtain ⟨hp, ha, _, k, hk, hu, hcv⟩ := (verifyOneSig_iff _ _ _ _ _ _ _).mp hone
     exact ⟨s, hs, k, hk, hkey, hp, ha, hu, hcv⟩
+
+/-- **What goes unsigned is a DNAME synthesis, and its DNAME is signed.** A
+record `VerifyRRSIG` exempts is a CNAME for which some DNAME record of the
+message, inside the signer zone, is a proper ancestor of its owner with
+owner-prefix + DNAME target = CNAME target (RFC 6672 §3.3); and when
+`VerifyRRSIG` says yes that DNAME is itself among the records that had to
+verify (it is never exempt, never skipped). -/
+theorem exempt_is_dname_synthesis (z : Bytes) (m : VMsg) (r : VRec) (h : exempt z m r = true) :
+    r.typ = 5 ∧ ∃ d ∈ m.answer ++ m.ns, d.typ = 39 ∧ nameInZone (lower d.name) z = true ∧
+      splitPres d.name ≠ [] ∧ (splitPres d.name).length < (splitPres r.name).length ∧
+      ((splitPres r.name).drop ((splitPres r.name).length - (splitPres d.name).length)).map lower
+        = (splitPres d.name).map lower ∧
+      equalFold (fqdn (((splitPres r.name).take ((splitPres r.name).length - (splitPres d.name).length)).flatMap
+        (fun l => l ++ [46]) ++ d.target)) (fqdn r.target) = true ∧
+      d ∈ collected z m := by
+  unfold exempt isSynthCNAME dnamesOf at h
+  simp only [Bool.and_eq_true, beq_iff_eq, List.any_eq_true, List.mem_map, List.mem_filter, Bool.not_eq_true',
+    List.isEmpty_eq_false_iff, decide_eq_true_eq] at h
+  obtain ⟨htyp, p, ⟨d, ⟨hd, hd39, hdz⟩, rfl⟩, ⟨⟨⟨hne, hlt⟩, hsuf⟩, htgt⟩⟩ := h
+  refine ⟨htyp, d, hd, hd39, hdz, hne, hlt, hsuf, htgt, ?_⟩
+  have hnex : exempt z m d = false := by
+    unfold exempt; simp [hd39]
+  unfold collected
+  rcases List.mem_append.mp hd with ha | hn
+  · exact List.mem_append_left _ (List.mem_filter.mpr ⟨ha, by simp [hnex]⟩)
+  · exact List.mem_append_right _ (List.mem_filter.mpr ⟨hn, by simp [hnex, hd39, hdz]⟩)
+
+-- "x.d." CNAME "x.t." under DNAME "d." -> "t." is a synthesis; with another target it is not
+example : isSynthCNAME [120, 46, 100, 46] [120, 46, 116, 46] [([100, 46], [116, 46])] = true := by decide
+example : isSynthCNAME [120, 46, 100, 46] [121, 46, 116, 46] [([100, 46], [116, 46])] = false := by decide
+example : isSynthCNAME [100, 46] [116, 46] [([100, 46], [116, 46])] = false := by decide
 
 /-- a usable candidate is a zone key the signature names. -/
 theorem usable_candidate_is_named_zone_key (tagOf : VKey → Nat) (sig : VSig) (k : VKey)
@@ -838,7 +874,7 @@ theorem usable_candidate_is_named_zone_key (tagOf : VKey → Nat) (sig : VSig) (
 example :
     let k : VKey := ⟨256, 3, 15, 1, [46], List.replicate 32 7⟩
     let s : VSig := ⟨1, 15, 1, 60, 2, 1, 9, 1, [46], [97, 46], List.replicate 64 1⟩
-    let r : VRec := ⟨[97, 46], 1, 1, [[97]], [1, 2, 3, 4]⟩
+    let r : VRec := ⟨[97, 46], 1, 1, [[97]], [1, 2, 3, 4], []⟩
     let cv := fun k s set => cryptoVerify (fun _ _ _ _ _ => false) (fun b => (b, true)) ⟨1024, 4096, 64⟩ (fun _ => 9) false
       { curve := some true } k s set
     verifyRRSIG (verifyOneSig cv (fun _ => true) (fun a => a == 15) (fun _ => 9) [k]) 1 [46]
@@ -847,7 +883,7 @@ example :
 example :
     let k : VKey := ⟨256, 3, 15, 1, [46], List.replicate 31 7⟩
     let s : VSig := ⟨1, 15, 1, 60, 2, 1, 9, 1, [46], [97, 46], List.replicate 64 1⟩
-    let r : VRec := ⟨[97, 46], 1, 1, [[97]], [1, 2, 3, 4]⟩
+    let r : VRec := ⟨[97, 46], 1, 1, [[97]], [1, 2, 3, 4], []⟩
     let cv := fun k s set => cryptoVerify (fun _ _ _ _ _ => false) (fun b => (b, true)) ⟨1024, 4096, 64⟩ (fun _ => 9) false
       { curve := some true } k s set
     verifyRRSIG (verifyOneSig cv (fun _ => true) (fun a => a == 15) (fun _ => 9) [k]) 1 [46]
